@@ -79,7 +79,20 @@ def run(lines, out, args):
                 r1 = x.isOrExtends(t)
                 got = "true" if r1 else "false"
             elif f[0] == "fresh":
-                got = "true"
+                # object lifetime: many sub-interfaces of a base are created and die (still subscribed when they go); a new one is
+                # created afterwards -- possibly where a dead one lived -- and then the base is re-based: the newcomer follows it
+                from zope.interface import Interface as _I
+                from zope.interface.interface import InterfaceClass as _IC
+                IBc = _IC("IChurnBase", (_I,), {}, __module__="zi.gen.churn")
+                tmp = [_IC("ITmp%d" % j, (IBc,), {}, __module__="zi.gen.churn") for j in range(40)]
+                del tmp
+                gc.collect()
+                keep = [_IC("IKeep%d" % j, (IBc,), {}, __module__="zi.gen.churn") for j in range(40)]
+                INc = _IC("IChurnNew", (_I,), {}, __module__="zi.gen.churn")
+                IBc.__bases__ = (INc,)
+                stale = [k.__name__ for k in keep if not k.isOrExtends(INc) or INc not in k.__sro__]
+                got = "true" if not stale else "false: created where a dead dependent lived, not re-based with their base: %s" % ",".join(stale[:3])
+                del keep
             else:
                 got = "bad"
         except ro.InconsistentResolutionOrderError:
